@@ -95,6 +95,8 @@ func (pq *plotterQueue) Reset() {
 func (sk *SpaceKeeper) spacePlotter() {
 	sk.wg.Add(1)
 	defer sk.wg.Done()
+	defer verifGate("exit", "", false)
+	verifGate("start", "", false)
 
 	var wg sync.WaitGroup
 
@@ -110,10 +112,12 @@ func (sk *SpaceKeeper) spacePlotter() {
 		sk.stateLock.Lock()
 		if _, ok := sk.workSpaceIndex[engine.Registered].Get(sid); ok {
 			changeState(engine.Registered, engine.Plotting)
+			verifGate("step1", sid, qws.wouldMining)
 		} else {
 			if _, ok := sk.workSpaceIndex[engine.Ready].Get(sid); ok && qws.wouldMining {
 				changeState(engine.Ready, engine.Mining)
 			}
+			verifGate("step1", sid, qws.wouldMining)
 			sk.stateLock.Unlock()
 			return
 		}
@@ -121,6 +125,7 @@ func (sk *SpaceKeeper) spacePlotter() {
 
 		// Step 2: plot space (wait for finishing)
 		ws.Plot()
+		verifGate("plotret", sid, qws.wouldMining)
 
 		// Step 3: change workSpace state
 		sk.stateLock.Lock()
@@ -133,6 +138,7 @@ func (sk *SpaceKeeper) spacePlotter() {
 				changeState(engine.Plotting, engine.Ready)
 			}
 		}
+		verifGate("step3", sid, qws.wouldMining)
 		sk.stateLock.Unlock()
 	}
 
@@ -173,19 +179,23 @@ func (sk *SpaceKeeper) spacePlotter() {
 			}
 
 			qws := sk.queue.PopItem()
+			verifGate("popped", qws.ws.id.String(), qws.wouldMining)
 			killMonitorCh := make(chan struct{}, 1)
 			wg.Add(1)
 			go monitor(qws.ws, killMonitorCh)
 			plotSpace(qws)
 			close(killMonitorCh)
+			verifGate("loop", "", false)
 		}
 
+		verifGate("idle", "", false)
 		select {
 		case <-sk.quit:
 			wg.Wait()
 			return
 		case qws := <-sk.newQueuedWorkSpaceCh:
 			addSpaces(qws, sk.newQueuedWorkSpaceCh)
+			verifGate("drained", "", false)
 		}
 
 	}
